@@ -151,6 +151,7 @@ type Gen struct {
 	callSeq  map[string]int
 	topFrame *Frame
 	loopBack map[string][]string // per loop under contract: reachability of its back edges (vacuity cover)
+	setHits  map[*AnchorSet]bool  // ghost updates that fired at least once (an anchor that never binds is reported)
 	inputs   []InputVar
 	opaque   map[string]bool
 	boxes    map[string]bool
@@ -205,6 +206,7 @@ func (g *Gen) reset() {
 	g.frames = nil
 	g.uniGrew = false
 	g.loopBack = nil
+	g.setHits = map[*AnchorSet]bool{}
 }
 
 func (g *Gen) note(s string) { g.notes[s] = true }
